@@ -16,7 +16,10 @@ pub struct Inst {
     pub props: Vec<&'static str>,
     pub mode: AllocMode,
     pub body: Arc<dyn Fn() + Send + Sync>,
-    pub policy: rt::Policy,
+    /// Budget of free atomic-call placements (see rt::Config::k); 0 = plain preemption bounding.
+    pub k: u32,
+    /// Preemption bound to use together with k (None = the tier's default).
+    pub p_with_k: Option<u32>,
     /// Whether every value must be dead at the end (false for harnesses that deliberately leak).
     pub expect_all_dead: bool,
     pub tls_reverse: bool,
@@ -57,7 +60,7 @@ pub struct RunResult {
 }
 
 pub fn cfg_string(c: &Config) -> String {
-    format!("p={},s={},f={},model={:?},step_cap={}", c.p, c.s, c.f, c.model, c.step_cap)
+    format!("p={},s={},f={},k={},model={:?},step_cap={}", c.p, c.s, c.f, c.k, c.model, c.step_cap)
 }
 
 pub fn matches(tags: &str, deciding: Option<&str>) -> bool {
@@ -104,7 +107,7 @@ pub fn run_local(
 ) -> RunResult {
     let mut out = RunResult::default();
     let mut cfg = cfg.clone();
-    cfg.policy = inst.policy;
+    cfg.k = inst.k;
     cfg.tls_reverse = inst.tls_reverse;
     let cfgs = cfg_string(&cfg);
     let stats = rt::explore(
@@ -187,7 +190,7 @@ pub fn probe_local(
     let mut ns = Vec::new();
     let mut hist = Vec::new();
     let mut cfg2 = cfg.clone();
-    cfg2.policy = inst.policy;
+    cfg2.k = inst.k;
     cfg2.tls_reverse = inst.tls_reverse;
     // A probe is an exploration limited to the prefix depth; the alternatives come from rt::probe.
     let (res, n) = rt::probe(&cfg2, prefix, inst.body.clone(), &mut || before_exec(inst), &mut |res| {
@@ -243,7 +246,7 @@ pub fn probe_local(
 /// Replays one choice vector with a trace; returns (result, trace text).
 pub fn replay_local(inst: &Inst, cfg: &Config, choices: &[u16]) -> ExecResult {
     let mut cfg = cfg.clone();
-    cfg.policy = inst.policy;
+    cfg.k = inst.k;
     cfg.tls_reverse = inst.tls_reverse;
     cfg.trace = true;
     rt::replay(&cfg, choices, inst.body.clone(), &mut || before_exec(inst), &mut |res| {
